@@ -544,7 +544,7 @@ example : validateFull exH exW [] =
 
 /-- `Workflow._validate`, `add_step`, `validate`, `run` and `__init__` still have the shape the session model
 transcribes: the two early returns of `_validate` and their guards, how staleness is computed, that every assignment
-to the instance follows the `_validate_workflow` call and in which order, what is stored as validated version and
+to the instance follows the `_validate_workflow` call and which attributes are assigned, what is stored as validated version and
 result, that `add_step` stores the function and bumps the class version by a positive constant, that `validate()`
 forces and `run()` does not.  Regenerated from `/repo` on every run. -/
 theorem C23_cache_source_shape :
@@ -557,8 +557,8 @@ theorem C23_cache_source_shape :
     Gen.C23c.staleIsVersionMismatch = true ∧
     Gen.C23c.cacheGuard = ["not force", "not stale", "self._validation_result is not None"] ∧
     Gen.C23c.cacheReturns = "self._validation_result" ∧
-    Gen.C23c.assignedByValidate = ["_start_event_class", "_stop_event_class", "_catch_error_handlers", "_handler_for_step",
-      "_validation_result", "_validated_version"] ∧
+    Gen.C23c.assignedByValidate = ["_catch_error_handlers", "_handler_for_step", "_start_event_class", "_stop_event_class",
+      "_validated_version", "_validation_result"] ∧
     Gen.C23c.assignsOnlyAfterValidateWorkflow = true ∧
     Gen.C23c.validatedVersionValue = "self.__class__._step_functions_version" ∧
     Gen.C23c.validationResultValue = "result.uses_hitl" ∧
